@@ -23,6 +23,7 @@ def main():
     checks = []
     if "--checks" in sys.argv:
         checks = sys.argv[sys.argv.index("--checks") + 1].split(",")
+    tier = sys.argv[sys.argv.index("--tier") + 1] if "--tier" in sys.argv else "quick"
     meta = json.load(open(os.path.join(src, "meta.json")))
     wt = "/tmp/seedconfirm/" + name
     sh("git -C /repo worktree remove --force %s" % wt)
@@ -65,9 +66,9 @@ def main():
         result["checks"] = {}
         for c in checks:
             t0 = time.time()
-            rc, out = sh([os.path.join(ROOT, "check"), c, "--tier", "quick"], cwd=ROOT, env={"WOODPILE_REPO": wt})
+            rc, out = sh([os.path.join(ROOT, "check"), c, "--tier", tier], cwd=ROOT, env={"WOODPILE_REPO": wt}, timeout=4 * 3600)
             last = [l for l in out.split("\n") if l.startswith(("VIOLATION", "OK ", "KNOWN"))]
-            result["checks"][c] = dict(rc=rc, verdict=last[-1] if last else out[-300:], wall_s=round(time.time() - t0, 1))
+            result["checks"][c] = dict(rc=rc, verdict=last[-1] if last else out[-300:], wall_s=round(time.time() - t0, 1), tier=tier)
     finally:
         sh("git -C /repo worktree remove --force %s" % wt)
         shutil.rmtree(tgt, ignore_errors=True)
@@ -79,12 +80,16 @@ def main():
     if result["confirmed"]:
         dst = os.path.join(ROOT, "seeded", name)
         os.makedirs(dst, exist_ok=True)
-        shutil.copy(os.path.join(src, "patch.diff"), dst)
-        shutil.copy(demo_src, dst)
+        if os.path.abspath(src) != os.path.abspath(dst):
+            shutil.copy(os.path.join(src, "patch.diff"), dst)
+            shutil.copy(demo_src, dst)
+        old = meta.get("confirmation", {}).get("checks", {})
+        for c, r in old.items():      # keep verdicts of checks not re-run this time
+            result["checks"].setdefault(c, r)
         meta["confirmation"] = result
         meta["what_was_run"] = ["cargo test --workspace --no-fail-fast --offline (with change): passes",
                                 "cargo test -p %s --test %s --offline: fails with change, passes without" % (crate, testname)] + \
-                               ["WOODPILE_REPO=<scratch with change> ./check %s --tier quick -> %s" % (c, r["verdict"]) for c, r in result["checks"].items()]
+                               ["WOODPILE_REPO=<scratch with change> ./check %s --tier %s -> %s" % (c, r.get("tier", "quick"), r["verdict"]) for c, r in result["checks"].items()]
         json.dump(meta, open(os.path.join(dst, "meta.json"), "w"), indent=1)
     return 0 if result["confirmed"] else 1
 
